@@ -13,7 +13,7 @@ NA = {
 PENDING = "check not built yet (framework under construction); planned static rule in DESIGN.md §6"
 TECH = {
     "C01": "typestate: Observer slot automaton extracted from MIR by abstract interpretation, explored exhaustively; who-may-invoke; atomic-take and gate dominance rules",
-    "C02": "must-pass-through path rule on every complete-handler CFG (MIR) + serial provenance dataflow; terminal-forwarding clause only",
+    "C02": "must-pass-through path rule on every complete-handler CFG (MIR) + serial provenance dataflow (terminal forwarding); counting clause: path-sensitive symbolic summary of each counting operator's item handler (affine integers, comparison guards, effect traces) explored as a transition system over every ordering of counter and bound and compared with the operator's table; capture analysis; item values/predicates not decided",
     "C03": "ordering rule on the event-CFG (register-all-before-subscribe-any) + must-pass-through on combinator handlers",
     "C04": "payload provenance dataflow (own error object reaches sink_error on every path), structural recovery recognition, who-originates-errors rule",
     "C05": "ordering/typestate rule on Observer::unsubscribe (MIR paths + slot interpreter), gate dominance",
@@ -21,14 +21,14 @@ TECH = {
     "C07": "lock-effect analysis: guard liveness dataflow on MIR x user-reachability over the resolved call graph x cell-instance identity (re-entrancy self-deadlock), leaf-lock rule, loop-poll rule",
     "C08": "condvar/mutex discipline rules (monitor premises Q1-Q11) on the MIR: guard liveness, must-pass-through notify, dominance of the abort re-check, loop-exit structure, who-may-call",
     "C17": "ownership analysis: discovery of closure-owns-its-receiver installations vs a reviewed table + cut obligations as path rules",
-    "C18": "lock-order/atomicity rules on ToVec::poll and the terminal callbacks (guard liveness + dominance)",
+    "C18": "lock-order/atomicity rules on ToVec::poll and the terminal callbacks (guard liveness + dominance); field-wise Clone (clones share the waker slot)",
     "C09": "hand-off rules: exactly-one-post must-pass-through per handler, role agreement of the posted task's sink, payload provenance through captures, who-may-call abort",
-    "C10": "who-may-write + ordering rules on the Subject map (guard liveness, dominance, key provenance)",
+    "C10": "who-may-write + ordering rules on the Subject map (guard liveness, dominance, key provenance and value-source dataflow of the key counter), hot-constructor capture rule, field-wise Clone",
     "C11": "atomicity rule: deciding cells acquired exactly once in write mode per body, no emission under the guard",
-    "C12": "who-may-write + snapshot-delivery + history-before-broadcast ordering rules",
+    "C12": "who-may-write + snapshot-delivery + history-before-broadcast ordering rules, two-step-window atomicity (J8), hot-constructor capture rule",
     "C13": "atomicity (test-and-set under one guard), who-may-write and role-agreement rules on publish/ref_count/replay",
     "C15": "pairing rule: scheduler creation paired with abort wiring on all paths; who-may-spawn; worker loop exit structure",
-    "C19": "atomic-take rule (per-kind terminal) on Observer and FunctionWrapper MIR",
+    "C19": "atomic-take and arbiter-ordering rules on Observer/FunctionWrapper MIR, slot typestate summaries, blocking-acquisition rule (no skipping try-lock)",
     "C14": "capture/ownership analysis: interior-mutable leaves of every upvar type of every Observable::create closure",
 }
 NOTE = ("Decides necessary structural conditions on the MIR of /repo's current tree (all paths of every matching site); "
